@@ -3,6 +3,7 @@ discipline, consistent permutations; not the numerical contracts)."""
 from ..rules import shape_rules as S
 from ..rules import sibling_rules as SI
 from ..rules import misc_rules as MI
+from ..rules import numpy_rules as NPR
 from ..rules import dtype_rules as D
 from ..rules.common import u1
 
@@ -22,11 +23,13 @@ SH2_ROWS = {"projection", "indefinite_orthogonalize", "circle_angles",
 
 
 def run(ctx):
+    ctx.do(NPR.rule_viewaug1, ["geometry_tools/utils/core.py"])
     ctx.do(S.rule_sh2, only=SH2_ROWS)
     ctx.do(S.rule_ax1, [CORE], scope=ctx.scope(ENTRIES))
     ctx.do(SI.rule_pa1)
     ctx.do(SI.rule_svd1)
     ctx.do(SI.rule_eigh1)
+    ctx.do(NPR.rule_neg0, ["geometry_tools/utils/numerical.py", "geometry_tools/utils/core.py"])
     ctx.do(MI.rule_form1)
     ctx.do(MI.rule_ori1)
     ctx.do(MI.rule_pair1)
